@@ -125,6 +125,61 @@ impl Run {
         Ok(())
     }
 
+    /// Lets `sizes.len()` events queue up behind the writer (the clock it reads is held while
+    /// they are sent) and then releases it: a backlog, as under a burst of logging. The
+    /// result on disk must be the same as for one-at-a-time delivery.
+    fn send_burst(&mut self, first_seq: u64, sizes: &[usize]) -> Result<(), Outcome> {
+        sim_core::heartbeat();
+        set_clock(self.now_ns);
+        hooks::hold_clock(true);
+        let (id, sender, n) = self.writer.as_mut().expect("writer");
+        let id = *id;
+        for (i, size) in sizes.iter().enumerate() {
+            let ev = LogEvent::new(Level::Info, vec![tag("seq", first_seq + i as u64), tag("pad", "x".repeat(*size))]);
+            if sender.send(ev).is_err() {
+                hooks::hold_clock(false);
+                return Err(Outcome::fail("C19.writer_keeps_running", format!("the writer thread is gone: sending event {} failed; history: {:?}", first_seq + i as u64, self.descr)));
+            }
+            *n += 1;
+        }
+        let want = *n;
+        hooks::hold_clock(false);
+        let last = first_seq + sizes.len() as u64 - 1;
+        let needle = format!("\"seq\":{last},");
+        let mut acknowledged = false;
+        for _ in 0..3000 {
+            sim_core::heartbeat();
+            match hooks::wait_writer(id, want, Duration::from_millis(10)) {
+                Some(info) if info.events_done >= want => {
+                    acknowledged = true;
+                    break;
+                }
+                Some(info) if info.exited => {
+                    return Err(Outcome::fail("C19.writer_keeps_running", format!("the writer thread ended while processing the burst {first_seq}..={last} (after {} events); history: {:?}", info.events_done, self.descr)));
+                }
+                _ => {}
+            }
+            // a writer that deals with several queued events in one go acknowledges fewer
+            // than were sent: then the burst is over when its last line is on disk
+            let on_disk = prefix_files(&self.dir).iter().rev().take(3).any(|f| std::fs::read(self.dir.join(f)).map(|d| String::from_utf8_lossy(&d).contains(&needle)).unwrap_or(false));
+            if on_disk {
+                std::thread::sleep(Duration::from_millis(20));
+                break;
+            }
+        }
+        if !acknowledged {
+            // resynchronise the event counter with what the writer reports
+            if let (Some(info), Some((_, _, n))) = (hooks::wait_writer(id, 0, Duration::from_millis(1)), self.writer.as_mut()) {
+                *n = info.events_done;
+            }
+        }
+        for (i, size) in sizes.iter().enumerate() {
+            self.sent.push(first_seq + i as u64);
+            self.max_event_bytes = self.max_event_bytes.max(*size as u64 + 120);
+        }
+        Ok(())
+    }
+
     /// Diffs the directory listing against what is known; records creations and deletions.
     fn observe(&mut self, after_event: bool) -> Result<(), Outcome> {
         let files = prefix_files(&self.dir);
@@ -159,19 +214,35 @@ impl Run {
             self.closed_cache.remove(&g);
             self.deletions += 1;
         }
-        // new files
-        for f in &files {
+        // new files (several can appear during one burst: oldest first, by the order in
+        // which the file system saw them written)
+        let mut fresh: Vec<&String> = files.iter().filter(|f| !self.info.contains_key(*f)).collect();
+        // (file-system timestamps are too coarse to order files written microseconds apart;
+        // the first sequence number in each file is exact)
+        let first_seq = |f: &String| -> u64 {
+            let mut buf = vec![0u8; 4096];
+            let n = std::fs::File::open(self.dir.join(f.as_str())).and_then(|mut fh| std::io::Read::read(&mut fh, &mut buf)).unwrap_or(0);
+            let text = String::from_utf8_lossy(&buf[..n]).to_string();
+            text.find("\"seq\":").and_then(|p| text[p + 6..].chars().take_while(char::is_ascii_digit).collect::<String>().parse::<u64>().ok()).unwrap_or(u64::MAX)
+        };
+        fresh.sort_by_key(|f| (first_seq(f), (*f).clone()));
+        let mut tick: u128 = 0;
+        for f in fresh {
             if !self.info.contains_key(f) {
+                // (files that appear within one observation were created one after the other:
+                // the writer's clock advances with every reading)
+                let when = self.now_ns + tick;
+                tick += 1;
                 // the previously newest file of this writer is now closed
                 if let Some(prev) = self.order.last() {
                     if let Some(pi) = self.info.get_mut(prev) {
                         if pi.closed_at_ns.is_none() {
-                            pi.closed_at_ns = Some(self.now_ns);
+                            pi.closed_at_ns = Some(when);
                         }
                     }
                 }
                 self.order.push(f.clone());
-                self.info.insert(f.clone(), FileInfo { created_at_ns: self.now_ns, last_write_ns: self.now_ns, closed_at_ns: None, preexisting: false, ino: ino_of(&self.dir.join(f)) });
+                self.info.insert(f.clone(), FileInfo { created_at_ns: when, last_write_ns: when, closed_at_ns: None, preexisting: false, ino: ino_of(&self.dir.join(f)) });
                 if after_event {
                     self.rotations += 1;
                 }
@@ -180,7 +251,7 @@ impl Run {
         if after_event {
             if let Some(cur) = self.order.last() {
                 if let Some(ci) = self.info.get_mut(cur) {
-                    ci.last_write_ns = self.now_ns;
+                    ci.last_write_ns = self.now_ns + tick;
                 }
             }
         }
@@ -487,6 +558,27 @@ fn history(cfg: &RunCfg) -> Outcome {
             // starting a writer takes time: the first event comes strictly later
             run.now_ns += 1_000 + u128::from(gen::below(1000));
         }
+        // a backlog: 2-60 small events queue up behind the writer and are released together
+        if gen::ratio(1, 40) {
+            let k = 2 + gen::below(89) as usize;
+            let sizes: Vec<usize> = (0..k).map(|_| 200 + gen::below(2800) as usize).collect();
+            let first = seq + 1;
+            seq += k as u64;
+            gen::count("probe.backlog_released_at_once");
+            if let Err(o) = run.send_burst(first, &sizes) {
+                return cleanup(run, o);
+            }
+            if let Err(o) = run.observe(true) {
+                return cleanup(run, o);
+            }
+            if let Err(o) = run.check_bounds(true) {
+                return cleanup(run, o);
+            }
+            if let Err(o) = run.check_content() {
+                return cleanup(run, o);
+            }
+            continue;
+        }
         let size = if gen::below(100) < huge_share {
             gen::count("probe.event_larger_than_a_file");
             66_000 + gen::below(80_000) as usize
@@ -505,7 +597,7 @@ fn history(cfg: &RunCfg) -> Outcome {
         if let Err(o) = run.check_bounds(true) {
             return cleanup(run, o);
         }
-        let rotated_now = run.info.get(run.order.last().unwrap()).map(|f| f.created_at_ns == run.now_ns).unwrap_or(false);
+        let rotated_now = run.info.get(run.order.last().unwrap()).map(|f| f.created_at_ns >= run.now_ns).unwrap_or(false);
         if rotated_now || i % 64 == 63 || i + 1 == nevents {
             if let Err(o) = run.check_content() {
                 return cleanup(run, o);
@@ -631,15 +723,15 @@ pub fn spec() -> PropertySpec {
     PropertySpec {
         id: "C19",
         level: "exploration",
-        rule: "The real LogFileWriter writer thread and real files in a per-run tmpfs directory, built with --cfg servlin_verif so that the thread reads a simulated clock and reports each finished event; the harness drives it in lock-step (set clock, send one event with a unique sequence number, wait for the thread). Histories of 30-430 events (quick) / 100-20000 (thorough), 50 B - 60 KiB each (in some runs also 66-146 KB: larger than a 64 KiB file and than the smallest keep budget, singly and back to back), over configurations max_write_bytes in {64 KiB, 128 KiB, 1 MiB} x max_keep_bytes in {1, 2, 3.5, 10} x that, keep-age off / 60 s .. 1 day, max_write_age 1 s .. 1 day; clock gaps of milliseconds, seconds, hours, days; 0-5 pre-existing files of earlier runs with set sizes and mtimes (in a quarter of these runs two or three of them share one mtime: all must be counted and deleted, in any order among themselves); unrelated look-alike files; restarts at random points: graceful, kill (thread abandoned), kill with a torn tail (newest file cut inside its last line). After EVERY event: creation order by diffing listings, oldest-first deletion, per-file size and age bounds, total size of all prefix files <= keep-size + one event, keep-age, unrelated files untouched; at every rotation and every 64 events: all surviving lines are whole, strictly consecutive and end at the newest accepted event. File-set stage: PrefixFileSet {new, push, delete_oldest, delete_older_than, delete_oldest_while_over_max_len} sequences with synthetic clocks against a reference model of the directory. non-trivial = at least one rotation; distinct = hash of history description.",
+        rule: "The real LogFileWriter writer thread and real files in a per-run tmpfs directory, built with --cfg servlin_verif so that the thread reads a simulated clock and reports each finished event; the harness drives it in lock-step (set clock, send one event with a unique sequence number, wait for the thread). Histories of 30-430 events (quick) / 100-20000 (thorough), 50 B - 60 KiB each (in some runs also 66-146 KB: larger than a 64 KiB file and than the smallest keep budget, singly and back to back), over configurations max_write_bytes in {64 KiB, 128 KiB, 1 MiB} x max_keep_bytes in {1, 2, 3.5, 10} x that, keep-age off / 60 s .. 1 day, max_write_age 1 s .. 1 day; clock gaps of milliseconds, seconds, hours, days; 0-5 pre-existing files of earlier runs with set sizes and mtimes (in a quarter of these runs two or three of them share one mtime: all must be counted and deleted, in any order among themselves); unrelated look-alike files; backlogs (2-90 events of 0.2-3 KB queue up behind the writer while the harness holds its clock, then are released together: the files must come out as for one-at-a-time delivery); restarts at random points: graceful, kill (thread abandoned), kill with a torn tail (newest file cut inside its last line). After EVERY event: creation order by diffing listings, oldest-first deletion, per-file size and age bounds, total size of all prefix files <= keep-size + one event, keep-age, unrelated files untouched; at every rotation and every 64 events: all surviving lines are whole, strictly consecutive and end at the newest accepted event. File-set stage: PrefixFileSet {new, push, delete_oldest, delete_older_than, delete_oldest_while_over_max_len} sequences with synthetic clocks against a reference model of the directory. non-trivial = at least one rotation; distinct = hash of history description.",
         scenarios: vec![
             Scenario { name: "c19.history", property: "C19", func: history, runs_quick: 6_000, runs_thorough: 60_000, doc: "writer thread histories" },
             Scenario { name: "c19.file_set", property: "C19", func: file_set, runs_quick: 80_000, runs_thorough: 1_500_000, doc: "file-set API vs model" },
         ],
-        required_probes: vec!["probe.rotations", "probe.files_deleted", "probe.preexisting_files", "probe.preexisting_files_with_equal_mtime", "probe.event_larger_than_a_file", "fault.graceful_restart", "fault.kill_restart", "fault.kill_restart_torn_tail"],
+        required_probes: vec!["probe.rotations", "probe.files_deleted", "probe.preexisting_files", "probe.preexisting_files_with_equal_mtime", "probe.event_larger_than_a_file", "probe.backlog_released_at_once", "fault.graceful_restart", "fault.kill_restart", "fault.kill_restart_torn_tail"],
         components: json!({
             "real": ["/repo/src/log/log_file_writer.rs, prefix_file_set.rs (with the guarded clock / progress hooks)", "the writer OS thread", "std::fs on tmpfs"],
-            "simulated": ["the wall clock read by the writer (verif_hooks::now)", "the pacing of the writer thread (lock-step: one event at a time)", "file mtimes left by earlier runs (set explicitly)"],
+            "simulated": ["the wall clock read by the writer (verif_hooks::now)", "the pacing of the writer thread (lock-step: one event at a time, or a backlog of 2-90 events released together)", "file mtimes left by earlier runs (set explicitly)"],
             "absent": ["disk errors (the writer uses std::fs directly; the property does not quantify over them)", "fsync / power-loss durability"]
         }),
         assumptions: vec![
